@@ -30,8 +30,47 @@ STAMP_RE = re.compile(r'^ ?(Simulation Date|Simulation Time|Calculation Time): .
 # --------------------------------------------------------------------------------------
 # template
 # --------------------------------------------------------------------------------------
+def static_dir():
+    return os.path.join(K.scratch_root(), f'dsim-static-{os.getuid()}')
+
+
+def _write_static_files():
+    """data files that requests name by absolute path: user-provided reservoir temperature profiles (reservoir model 5) that are
+    legal but unusual - a restart time reported twice with different temperatures, a constant in the unused first column"""
+    d = os.path.join(static_dir(), 'profiles')
+    os.makedirs(d, exist_ok=True)
+    try:
+        with open(os.path.join(REPO_SRC, 'geophires_x', 'Examples', 'ReservoirOutput.txt'), encoding='utf-8') as f:
+            rows = [ln for ln in f.read().split('\n') if ln.strip()]
+    except OSError:
+        rows = [f'{i * 0.25}\t,\t{150 - i * 0.1:.4f}' for i in range(121)]
+    temps = [r.split(',')[1].strip() for r in rows]
+    times = [r.split(',')[0].strip() for r in rows]
+    files = {
+        # time 5 is reported twice ('5' and '5.0'), so is 10: everything after the first duplicate is one step late
+        'restart_twice.txt': [f'{t}\t,\t{v}' for t, v in zip(times[:20] + ['5', '5.0'] + times[22:60] + ['10', '10.00', '10.0'] + times[63:], temps)],
+        'constant_first_column.txt': [f'1\t,\t{v}' for v in temps],
+        'same_rows_repeated.txt': [f'{t}\t,\t{v}' for t, v in zip(times, temps[:40] + temps[39:-1])],
+    }
+    for name, lines in files.items():
+        pth = os.path.join(d, name)
+        body = '\n'.join(lines) + '\n'
+        try:
+            with open(pth, encoding='utf-8') as f:
+                if f.read() == body:
+                    continue
+        except OSError:
+            pass
+        tmp = pth + f'.{os.getpid()}.tmp'
+        with open(tmp, 'w', encoding='utf-8') as f:
+            f.write(body)
+        os.replace(tmp, pth)
+    return d
+
+
 def template_init(j=0, refserver=False):
     os.environ.setdefault('MPLBACKEND', 'Agg')
+    HW.add_profile_tweaks(_write_static_files())
     if not refserver and os.environ.get('DSIM_NO_REFSERVER') != '1':
         _start_ref_server()      # (first, so that it imports the repository while this process does)
     if not os.environ.get('VERIF_DEBUG'):
@@ -333,6 +372,11 @@ OUT_NAMES = {'rel': 'result.out', 'rel_nested': 'sub dir/nested.out', 'rel_nosuf
              'rel_linkdotdot': 'outlnk/../via.out', 'rel_dash': '-dash.out',
              'rel_percent': 'drawdown_5%.out', 'abs_percent': '100%s/%(x)s.out', 'rel_braces': '{case}_$HOME.out', 'rel_logname': 'run1.log',
              'rel_jsonname': 'result.json.out'}
+# output paths at which no report can be written although the JSON next to it can (an existing directory, a dangling symbolic
+# link): whatever the run does, it must not claim success.  (A link to /dev/full would be a third, but reading it back - the
+# console echo - never ends; disk-full is covered by the injected ENOSPC.)
+UNWRITABLE_FORMS = ['rel_isdir', 'rel_dangling']
+UNWRITABLE_NAMES = {'rel_isdir': 'taken.out', 'rel_dangling': 'dangling.out'}
 FAULTS = ['enospc', 'eio', 'eacces', 'vanish', 'cancel']
 FAULT_AT = [1, 2, 3, 4, 5, 6, 7, 8, 10, 12, 15, 20, 25, 30, 40]
 # (the last one lives in the decoy directory under a name that also exists, relative to the package directory, in the
@@ -495,6 +539,10 @@ def gen_history(cs, templates, tier, force=None):
         nonlocal nruns
         op = {'op': 'run', 'entry': entry, 'slot': slot, 'client': client_tab[cs.choose(len(client_tab), 'client')],
               'out': OUT_FORMS[cs.choose(len(OUT_FORMS), 'out')], 'reuse': cs.choose(2, 'reuse') == 1}
+        # the caller keeps the result object and first looks at it after later operations (a sweep analysed after the loop)
+        op['defer'] = entry in ('client', 'client_params') and cs.choose(4, 'defer') == 3
+        if entry == 'cli' and cs.choose(12, 'unwritable') == 11:
+            op['out'] = UNWRITABLE_FORMS[cs.choose(len(UNWRITABLE_FORMS), 'unwritable_form')]
         if entry == 'client_params':
             if theme == 'cache' and fixed_params and cs.choose(4, 'psame') != 0:
                 # the same params dict again (on top of a base file that may have been rewritten in between)
@@ -736,6 +784,7 @@ class Exec:
         self.pending_fault = None
         self.client_text = {}
         self.returned = []        # (result object, canonical parsed form at the time it was returned, op index)
+        self.deferred_ids = set() # results whose first read is deferred to the end of the history
         self.prev_parse = None    # (report text, canonical parse) of the previous report of this history
         self.client_seen = {}     # (client, slot) -> content hash of the last successful run through a caching client
 
@@ -884,8 +933,16 @@ class Exec:
             except Exception as e:  # noqa: BLE001
                 now_ = f'raised {type(e).__name__}'
             if now_ != was:
-                self.V('C10', 'result_changed_after_return', 'later_operations',
-                       f'the result returned by operation {opi} reads differently at the end of the history: ' + _first_diff(now_, was))
+                if id(res) in self.deferred_ids:
+                    self.V('C10', 'result_changed_after_return', 'first_read_deferred',
+                           f'the result returned by operation {opi}, first read at the end of the history, does not say what the report of its '
+                           'request says: ' + _first_diff(now_, was))
+                    self.V('C08', 'stale_result', 'first_read_deferred',
+                           f'the result returned by operation {opi}, first read at the end of the history, was computed from other content: '
+                           + _first_diff(now_, was))
+                else:
+                    self.V('C10', 'result_changed_after_return', 'later_operations',
+                           f'the result returned by operation {opi} reads differently at the end of the history: ' + _first_diff(now_, was))
                 break
 
     # ---- operations ------------------------------------------------------------------
@@ -896,6 +953,15 @@ class Exec:
         """-> (argument passed to the entry point or None, expected report path, expected json path)"""
         if form == 'absent':
             return None, os.path.join(cwd, 'HDR.out'), os.path.join(cwd, 'HDR.json')
+        if form in UNWRITABLE_FORMS:
+            name = UNWRITABLE_NAMES[form]
+            full = os.path.join(cwd, name)
+            if not os.path.lexists(full):
+                if form == 'rel_isdir':
+                    os.makedirs(full)
+                else:
+                    os.symlink(os.path.join('no such dir', 'x.out'), full)
+            return name, full, os.path.join(cwd, os.path.splitext(name)[0] + '.json')
         name = OUT_NAMES[form]
         if form == 'rel_linkdotdot':
             # <cwd>/outlnk -> <sandbox>/out abs/deep ; 'outlnk/../via.out' is <sandbox>/out abs/via.out for the operating system
@@ -978,7 +1044,8 @@ class Exec:
                 # a result object that was handed out before comes from the client's cache; its output_file_path may since
                 # have been overwritten by another request for the same path, so only the result itself is compared then
                 served_from_cache = (k.seq == seq0) or any(result is r_ for r_, _, _ in self.returned)
-                parsed = canon_parsed(result.result)
+                deferred = bool(op.get('defer')) and exp['outcome'] == 'ok' and not faulted and not served_from_cache
+                parsed = None if deferred else canon_parsed(result.result)
                 if not served_from_cache:
                     with K._real['open'](result.output_file_path, encoding='utf-8') as f:
                         report = f.read()
@@ -1037,6 +1104,9 @@ class Exec:
             exc = type(e).__name__
             op['_failed'] = True
             self.exc_msg = str(e)[:200]
+        unwritable = entry == 'cli' and op['out'] in UNWRITABLE_FORMS
+        if unwritable:
+            self.probe('cli_run_with_unwritable_report_path')
         fault = k.armed
         fired = bool(fault and fault.fired)
         if fired:
@@ -1050,7 +1120,22 @@ class Exec:
         # ---- outcome class ---------------------------------------------------------------
         if entry in ('client', 'client_params'):
             (self.last_failed_client.add if outcome == 'raised' else self.last_failed_client.discard)(op['client'])
-        if not fired:
+        if unwritable:
+            # the simulation may well succeed: the report cannot be written, so the run must not end as a success
+            if outcome == 'ok' and exp['outcome'] == 'ok':
+                ok_there = False
+                try:
+                    with K._real['open'](report_path, encoding='utf-8') as f:
+                        ok_there = canon_report(f.read(), self.sb) == exp['report']
+                except OSError:
+                    pass
+                if not ok_there:
+                    self.V('C20', 'exit_status', 'cli_exit_0_although_the_report_could_not_be_written',
+                           f"python -m geophires_x ended with {exc or 'exit status 0'} although no report could be written at "
+                           f"{report_path.replace(self.sb, '$SB')} ({op['out']})")
+            elif exp['outcome'] != 'ok' and outcome == 'ok' and not fired:
+                self.V('C20', 'exit_status', 'cli_exit_0_on_failure', 'exit status 0 although the simulation fails')
+        elif not fired:
             if exp['outcome'] == 'ok' and outcome != 'ok':
                 cls = 'exit_status' if entry == 'cli' else 'history_dependent_result'
                 self.Vref('C20' if entry == 'cli' else 'C08', cls, f'{entry}_unexpected_failure',
@@ -1074,7 +1159,21 @@ class Exec:
                 # the property does not name an exception type: counted, not judged
                 self.probe(f'client_failure_signalled_with_{exc}')
         # ---- files (C20) -----------------------------------------------------------------
-        if entry in ('cli', 'main_argv'):
+        if entry in ('cli', 'main_argv') and fired and outcome == 'ok' and exp['outcome'] == 'ok' and not unwritable:
+            # an injected I/O error is outside the quantifier, but a success status is a claim: the report is there and complete
+            ok_there = False
+            try:
+                with K._real['open'](report_path, encoding='utf-8') as f:
+                    ok_there = canon_report(f.read(), self.sb) == exp['report']
+            except OSError:
+                pass
+            if not ok_there:
+                self.V('C20', 'exit_status', f'{entry}_success_without_complete_report_under_io_fault',
+                       f"{entry} ended with {exc or 'success'} after an injected {fault.kind} at {fault.fired[0] if fault.fired else '?'}, "
+                       f"but there is no complete report at {report_path.replace(self.sb, '$SB')}")
+            else:
+                self.probe('success_with_complete_report_despite_fault')
+        if entry in ('cli', 'main_argv') and not unwritable:
             rp_exists = os.path.exists(report_path)
             jp_exists = os.path.exists(json_path)
             if outcome == 'ok' and not fired and exp['outcome'] == 'ok':
@@ -1105,7 +1204,7 @@ class Exec:
         for d in before:
             new = {os.path.normpath(os.path.join(d, x)) for x in (after[d] - before[d])}
             new = {x for x in new if x not in allowed and not x.endswith('all_messages_conf.log') and '__pycache__' not in x}
-            if new and not fired and entry != 'hip':
+            if new and not fired and entry != 'hip' and not unwritable:
                 self.V('C20', 'stray_file', entry, f"new files outside the requested output: {sorted(x.replace(self.sb, '$SB') for x in new)[:4]}")
             for x in new:
                 try:
@@ -1113,7 +1212,9 @@ class Exec:
                 except OSError:
                     pass
         # ---- results (C08 / C20 / C10) ---------------------------------------------------
-        if fired and outcome == 'ok':
+        if unwritable:
+            self.result_digest.update(f'unwritable:{outcome}'.encode())
+        elif fired and outcome == 'ok':
             # an injected I/O fault is outside the property's quantifier: what this very operation returns is not judged
             # (later operations are: a torn result must not be served to an ordinary request)
             self.probe('returned_despite_fault')
@@ -1143,6 +1244,11 @@ class Exec:
                 self.probe('served_from_cache')
             if result is not None and parsed is not None and kd == 'geo':
                 self.returned.append((result, parsed, self.ops_done))
+            elif result is not None and parsed is None and kd == 'geo' and entry in ('client', 'client_params') and exp.get('parsed'):
+                # first read deferred to the end of the history: it must then say what the report of THIS request says
+                self.returned.append((result, exp['parsed'], self.ops_done))
+                self.deferred_ids.add(id(result))
+                self.probe('first_read_of_a_result_deferred')
             if entry == 'client' and op['client'] != 1:
                 self.client_seen[(op['client'], op['slot'])] = sha(str(eff))
                 self.client_text[(op['client'], op['slot'])] = eff
